@@ -10,8 +10,8 @@ claims = json.load(open(claims_p))
 
 
 def section(txt, pat):
-    m = re.search(r"^## [^\n]*" + pat + r"[^\n]*\n(.*?)(?=^## |\Z)", txt, flags=re.S | re.M | re.I)
-    return re.sub(r"\s*\n\s*", " ", m.group(1).strip()) if m else None
+    m = re.search(r"^## [^\n]*" + pat + r"[^\n]*\n(?P<body>.*?)(?=^## |\Z)", txt, flags=re.S | re.M | re.I)
+    return re.sub(r"\s*\n\s*", " ", m.group("body").strip()) if m else None
 
 
 bullets = []
@@ -19,7 +19,7 @@ for f in sorted(x for x in os.listdir(R) if x.endswith(".md")):
     pid = f[:3]
     txt = open(os.path.join(R, f)).read()
     d = section(txt, r"(paragraph|text) for DESIGN")
-    c = section(txt, r"sentences?(\(s\))? for (the |`)?.*claim")
+    c = section(txt, r"sentences?(?:\(s\))? for .*claim")
     if d:
         d = re.sub(r"^\*\*?C\d\d[^*]*\*\*\.?\s*", "", d).strip().strip('"')
         bullets.append(f"* **{pid}** ({len(th[pid]['theorems'])} theorems). {d}")
